@@ -16,11 +16,13 @@ import (
 	"flag"
 	"fmt"
 	"os"
+	"os/signal"
 	"path/filepath"
 	"runtime"
 	"sort"
 	"strconv"
 	"strings"
+	"syscall"
 	"time"
 )
 
@@ -88,6 +90,16 @@ func main() {
 		os.Exit(2)
 	}
 	scratchRoot = p.Scratch
+	if !o.Keep {
+		// a terminated check leaves nothing behind
+		sig := make(chan os.Signal, 1)
+		signal.Notify(sig, os.Interrupt, syscall.SIGTERM)
+		go func() {
+			<-sig
+			os.RemoveAll(p.Scratch)
+			os.Exit(2)
+		}()
+	}
 	fmt.Printf("c14: mode=%s sites=%d flagged=%d files=%d build=%.1fs %s\n", p.Mode, p.Instr.NumSites, p.Instr.Flagged, len(p.Instr.Files), p.BuildS, p.Go)
 	if p.Mode == "degraded" {
 		degradedMode = true
